@@ -53,7 +53,8 @@ def strategy_(draw, tier):
     for i in range(nlinks):
         where = draw(st.sampled_from(dirs))
         kind = draw(st.sampled_from(["dir-rel", "dir-rel", "dir-abs", "ancestor", "outside-rel", "outside-abs", "file", "dangling",
-                                     "self", "mutual", "chain", "same-text", "same-text", "name-rel"]))
+                                     "self", "mutual", "chain", "same-text", "same-text", "name-rel",
+                                     "self-abs", "mutual-abs", "through-file", "through-file-abs"]))
         links.append({"at": list(where), "name": "L%d" % i, "kind": kind,
                       "pick": draw(st.sampled_from(range(16))), "up": draw(st.sampled_from([1, 1, 2, 3]))})
     return {"tree": spec, "outside": outside, "links": links, "root": draw(st.sampled_from(["dot", "rel", "abs"])),
@@ -113,6 +114,18 @@ def build(case, jroot, inner):
             text = "/".join([".."] * (l["up"] - 1) + [NAMES[pick % len(NAMES)]])
         elif k == "self":
             text = l["name"]
+        elif k == "self-abs":
+            text = inner + "/t" + "".join("/" + c for c in at) + "/" + l["name"]
+        elif k == "mutual-abs":
+            other = case["links"][(i + 1) % len(case["links"])]
+            text = inner + "/t" + "".join("/" + c for c in other["at"]) + "/" + other["name"]
+        elif k in ("through-file", "through-file-abs"):
+            # the way to the target leads through a regular file: no such place (ENOTDIR), nothing unreadable
+            if files:
+                f = files[pick % len(files)]
+                text = (relpath(at, f) if k == "through-file" else inner + "/t" + "".join("/" + c for c in f)) + "/x"
+            else:
+                text = "nofile/x"
         elif k == "mutual":
             other = case["links"][(i + 1) % len(case["links"])]
             text = relpath(at, tuple(other["at"]) + (other["name"],))
@@ -368,10 +381,14 @@ def check(case):
             out.add("C18/not-listed/" + reason, query=q, entries=["%s/%s" % k for k in missing][:6], links=made, stderr=res.err[:300])
         if extra:
             out.add("C18/rows-from-outside-the-closure", query=q, entries=["%s/%s" % k for k in extra][:6], links=made)
-        bad_links = any(l["kind"] in ("dangling", "self", "mutual") for l in case["links"]) or \
+        bad_links = any(l["kind"] in ("dangling", "self", "mutual", "self-abs", "mutual-abs", "through-file", "through-file-abs")
+                        for l in case["links"]) or \
             any(jresolve(j, inner + "/t" + "".join("/" + c for c in m[0]) + "/" + m[1]) is None for m in made)
-        if not bad_links and (res.status != 0 or res.err):
-            out.add("C18/status-not-clean", query=q, status=res.status, stderr=res.err[:300], links=made)
+        # "the exit status stays 0 when nothing is unreadable": a dangling link, a self-link or a mutual pair is not
+        # something unreadable (nothing in these trees is: the search runs as root)
+        if res.status != 0 or res.err:
+            out.add("C18/status-not-clean" + ("/dangling-or-looping-link" if bad_links else ""), query=q, status=res.status,
+                    stderr=res.err[:300], links=made)
         # --- without symlinks: C01's model
         q2 = "path from %s%s into list" % (root_text, opts)
         res2 = runner.run_jailed(j, [q2], cwd=cwd)
